@@ -377,7 +377,7 @@ def stream(ctx):
         ctx.extra['violations_by_mutation_class'] = summary.get('violations_by_mutation_class')
         ctx.extra['fixtures_used'] = summary.get('fixtures_used')
         ctx.extra['per_extractor'] = {k: {kk: v.get(kk) for kk in ('cases', 'by_status', 'fixtures', 'fixtures_accepted_at_own_path', 'accepted_names',
-                                                                  'cases_with_packages', 'max_ms', 'peak_heap_mib', 'skip_reason', 'skipped_fixtures')}
+                                                                  'cases_with_packages', 'max_ms', 'peak_heap_mib', 'skip_reason', 'skipped_fixtures', 'keywords', 'keywords_found')}
                                       for k, v in summary.get('per_extractor', {}).items()}
     return not judge.new
 
@@ -400,6 +400,10 @@ def run(ctx):
                        'extractors that read siblings (chrome _locales, go.sum, -r requirements, parent pom.xml, containerd snapshotter db) get the fixture\'s siblings; only the file under test is mutated']
     ctx.rule = ('case = (extractor, accepted path name, file bytes [, sibling files]); sources: corpus witnesses, every testdata fixture once per accepted name, '
                 '%d/%d (quick/thorough) seeded mutations per fixture cycling through the mutation classes, every fixture-independent document at every accepted canonical name, random bytes. '
+                'Token-aware injection (harness/cmd/c02gen/keywords.go): the keywords every extractor searches for are read from its SOURCE by a go/ast pass (string literals handed to strings.* / bytes.*, '
+                'literal runs of its regexps, its other constants; one level of imported extractor/filesystem helper packages; per_extractor.<name>.keywords lists the injected ones, 24/96 per extractor quick/thorough); '
+                'class kwdoc = one line <prefix><bytes><keyword><short tail> per keyword case variant x placement BEFORE/INSIDE/AFTER x byte class (Latin-1 high bytes, lone continuation bytes, truncated sequences, '
+                'U+023A/U+023E, U+0130, Kelvin sign, special-casing letters, combining marks, NUL, long runs); class kwline = the same bytes injected at an occurrence of the keyword inside a fixture, the rest of that line cut short. '
                 'modelled/<fmt> = c03gen malformed inputs of the five line formats run on implementation and Lean model (pk must agree). '
                 'non-trivial = FileRequired accepted the path AND Extract returned at least one package (the parser got far enough to produce output); distinct = distinct case lines. '
                 'distribution key = "<mutation class> <status>"') % (MUTATIONS['quick'], MUTATIONS['thorough'])
